@@ -27,19 +27,8 @@ pub fn lift(g: &pg::Grammar) -> Result<Grammar, String> {
                         pg::DirectiveExpression::CheckDirective(c) => Directive::Check(c.function.clone()),
                     });
                 }
-                // cross-check: the flags the code generator derives from the directives
-                let f = r.flags();
-                let want = (
-                    directives.contains(&Directive::String),
-                    directives.contains(&Directive::NoSkipWs),
-                    directives.contains(&Directive::Export),
-                    directives.contains(&Directive::Position),
-                    directives.contains(&Directive::Memoize),
-                    directives.contains(&Directive::Leftrec),
-                );
-                if (f.string, f.no_skip_ws, f.export, f.position, f.memoize, f.left_recursive) != want {
-                    return Err(format!("flags of rule {} do not match its directives", r.name));
-                }
+                // (the flags the code generator derives from the directives are its internal API: a misread directive shows in
+                // the generated code instead, which case_info compares between the canonical and the varied layout)
                 rules.push(RuleDef::Normal(NormalRule { name: r.name.clone(), directives, body: lift_choice(&r.definition)? }));
             }
             pg::Grammar_rules::CharRule(c) => {
@@ -285,6 +274,16 @@ pub fn case_info(bytes: &[u8]) -> Result<CaseInfo, (Failure, serde_json::Value)>
         }
         classes.push("two_layout_codegen");
     }
+    // third relation: "directives in any order" - the same rules with the flag directives moved in front of the @check
+    // directives (checks keep their relative order) denote the same grammar, so they generate the same code
+    if src.chance(70) {
+        if let Some(m) = directive_order_mismatch(&model) {
+            return Err(fail(Failure::new(m, "identical code", "different code"), &text));
+        }
+        if model.normals().any(|n| matches!(n.directives.first(), Some(Directive::Check(_))) && n.directives.iter().any(|d| !matches!(d, Directive::Check(_)))) {
+            classes.push("flag_after_check");
+        }
+    }
     if stats.comments_in_expr > 0 {
         classes.push("comment_in_expr");
     }
@@ -305,6 +304,38 @@ pub fn case_info(bytes: &[u8]) -> Result<CaseInfo, (Failure, serde_json::Value)>
     }
     let nontrivial = stats.comments_in_expr > 0 || stats.nonraw_escapes > 0 || stats.extra_parens > 0;
     Ok(CaseInfo { text, classes, nontrivial })
+}
+
+fn flags_first(model: &Grammar) -> Grammar {
+    let mut g = model.clone();
+    for r in &mut g.rules {
+        if let RuleDef::Normal(n) = r {
+            let (checks, mut flags): (Vec<Directive>, Vec<Directive>) = n.directives.drain(..).partition(|d| matches!(d, Directive::Check(_)));
+            flags.sort_by_key(|d| format!("{:?}", d));
+            flags.dedup();
+            flags.extend(checks);
+            n.directives = flags;
+        }
+    }
+    g
+}
+
+/// Some(message) when the canonical text and the flags-first text of one model are both accepted but give different code
+fn directive_order_mismatch(model: &Grammar) -> Option<String> {
+    let settings = CodegenSettings::default();
+    let code = |g: &Grammar| -> Option<String> {
+        let t = printer::print_canonical(g);
+        pg::Grammar::from_str(&t).ok().and_then(|p| verif_core::util::catch(|| p.generate_code(&settings).ok().map(|t| t.to_string())).ok().flatten())
+    };
+    let ff = flags_first(model);
+    if ff == *model {
+        return None;
+    }
+    match (code(model), code(&ff)) {
+        (Some(a), Some(b)) if a != b => Some("the order of the directives of a rule changes the generated code (flag directives written after @check)".to_string()),
+        (Some(_), None) | (None, Some(_)) => Some("the order of the directives of a rule decides whether the grammar is accepted".to_string()),
+        _ => None,
+    }
 }
 
 pub fn one_case(bytes: &[u8]) -> Result<(), serde_json::Value> {
@@ -335,6 +366,15 @@ pub fn replay(rec: &serde_json::Value) -> Option<serde_json::Value> {
     };
     if strip(&model) != strip(&lifted) {
         return bad("grammar text is read into a different structure than it denotes");
+    }
+    if let Some(m) = directive_order_mismatch(&model) {
+        return bad(&m);
+    }
+    let settings = CodegenSettings::default();
+    let a = pg::Grammar::from_str(&printer::print_canonical(&model)).ok().and_then(|g| verif_core::util::catch(|| g.generate_code(&settings).ok().map(|t| t.to_string())).ok().flatten());
+    let b = verif_core::util::catch(|| parsed.generate_code(&settings).ok().map(|t| t.to_string())).ok().flatten();
+    if canon(&model) == canon(&lifted) && a != b {
+        return bad("two layouts of the same grammar generate different code");
     }
     None
 }
